@@ -154,6 +154,11 @@ def run(ctx):
     c14.run(ctx.sub("DEP-C14"), deps=False)
 
     entries_independent(ctx, "R3")
+    # "the signed portion and valid signatures alone": an entry of the unsigned signature map that is
+    # not a valid signature by an authorized key counts for nothing (C01's rule set)
+    from . import c01
+
+    c01.run(ctx.sub("DEP-C01"))
     # at the command line the role a file is presented for is its own declared type and nothing
     # else: success is reported only after verify_root (declared type root) or
     # verify_delegation(declared type, ...) accepted (C17's rule set, re-evaluated here)
